@@ -5,6 +5,7 @@ From GD Require Import Base.Prelude Model.Strings Model.Buffer Model.Unreal2Str 
 From GD Require Import Model.Net Model.Valve Model.ValveShow Model.Master Model.Settings Model.Quake Model.Unreal2.
 From GD Require Import Spec.Rand Spec.ValveSpec Spec.ValveGen Spec.CaseEnc Spec.MasterSpec Spec.QuakeSpec Spec.Unreal2Spec.
 From GD Require Import Model.View Gen.CommonImpls Model.ViewInst Spec.ViewSpec.
+From GD Require Import Model.Dispatch Gen.ModulesTable Gen.GamesTable.
 
 Definition rd_u8 : R N := read_uint true 1.
 Definition rd_u16 : R N := read_uint true 2.
@@ -387,6 +388,36 @@ Definition case_spec_view : R bytes :=
              json_keys player_json_keys r)
   end.
 
+(* family 14: a game of the definitions table queried through the generic
+   entry point (query_with_timeout_and_extra_settings with no extra settings);
+   the harness compares the other paths with it. 114: replies of a server of
+   a given engine for given gather settings. *)
+Definition case_paths : R bytes :=
+  let* idb := rd_bytes16 in
+  let* _ := rd_bytes16 in                    (* the module the harness calls *)
+  let* port := rd_opt rd_u16 in
+  let* ts := rd_tsettings in
+  let* n := rd_script in
+  let id := string_of_bytes idb in
+  match find (fun d => String.eqb (d_id d) id) games, ts with
+  | None, _ => ret (str "NO-SUCH-GAME")
+  | Some d, Ok t =>
+      if 1000000 <? ts_retries_or_default t then ret model_abstains
+      else match dispatch d port t None with
+           | CValve p e g t' => ret (show_query show_response (Valve.query (bz_lookup []) p e g t' n))
+           | CQuake v p t' => ret (show_query show_qresponse (client_query p (qver_of v) t' n))
+           | CUnreal2 p g t' => ret (show_query show_u2_response (u2_query p (Some g) t' n))
+           | _ => ret model_abstains
+           end
+  | Some _, o => ret (show_outcome (fun _ => []) o ++ str "|")
+  end.
+Definition case_spec_valve_for : R bytes :=
+  let* seed := rd_u64 in
+  let* e := rd_engine in
+  let* g := rd_gathering in
+  let '(st, o) := fst (gen_valve_for e seed) in
+  ret (intercalate (str ",") (map show_hex (valve_script st o g))).
+
 Definition run_case_R : R bytes :=
   let* fam := rd_u8 in
   if fam =? 1 then case_bufops
@@ -397,12 +428,14 @@ Definition run_case_R : R bytes :=
   else if fam =? 6 then case_varint_rt
   else if fam =? 7 then case_string_rt
   else if fam =? 10 then case_valve
+  else if fam =? 14 then case_paths
   else if fam =? 15 then case_view
   else if fam =? 16 then case_master
   else if fam =? 18 then case_settings
   else if fam =? 20 then case_quake
   else if fam =? 22 then case_unreal2
   else if fam =? 110 then case_spec_valve
+  else if fam =? 114 then case_spec_valve_for
   else if fam =? 115 then case_spec_view
   else if fam =? 116 then case_spec_master
   else if fam =? 117 then case_spec_denote
